@@ -2803,7 +2803,7 @@ Theorem stream_error_sticky s l s' : step s l = Some s' -> sdone s = true -> sdo
 Proof.
   intros Hs Hd. destruct l; simpl in Hs;
     repeat match type of Hs with
-           | context [match ?x with _ => _ end] => destruct x
+           | context [match ?x with _ => _ end] => destruct x eqn:?
            end; try discriminate; try congruence; inversion Hs; subst; clear Hs; unfold close_sender; rewrite ?Hd; simpl; auto;
     try congruence.
 Qed.
